@@ -165,6 +165,10 @@ class C10(Plugin):
 
     def program(self, rng, cfg):
         src = Plugin.program(self, rng, cfg)
+        for _ in range(rng.choice([0, 0, 2, 5])):  # more block headers with trivia in front of their ':' (header-only reparse path)
+            new = progen.p_colon_space(rng, src, {})
+            if new is not None and progen.try_parse(new) is not None and progen.try_toks(new):
+                src = new
         if cfg.get('p_mb_prefix'):
             new = progen.mb_prefix(rng, src, cfg['p_mb_prefix'])
             if new != src:
@@ -183,7 +187,7 @@ class C10(Plugin):
             units = [u for u in stmt_units(tree, toks) if len(u[2]) >= 2]
             if not units:
                 return None
-            kind, node, ts = rng.choice(units)
+            kind, node, ts = rng.choices(units, [3 if u[0] == 'header' else 1 for u in units])[0]  # headers are the rarer reparse path
             first, last = ts[0], ts[-1]
             # positions: token boundaries inside (first.end .. last.start), sometimes mid-token
             pts = []
@@ -194,6 +198,10 @@ class C10(Plugin):
                     pts.append((t.start[0], rng.randrange(t.start[1] + 1, t.end[1])))
             pts.append(first.end)
             pts.append(last.start)
+            for t1, t2 in zip(ts, ts[1:]):  # a column inside the whitespace between two tokens of the unit
+                if t1.end[0] == t2.start[0] and t2.start[1] - t1.end[1] > 1:
+                    pts.append((t1.end[0], rng.randrange(t1.end[1] + 1, t2.start[1])))
+            self.tiny_unit = len(ts) == 2
             pts = sorted(set(p for p in pts if first.end <= p <= last.start))
             a = rng.choice(pts)
             later = [p for p in pts if p >= a]
@@ -222,6 +230,8 @@ class C10(Plugin):
         return ln, col, end_ln, end_col
 
     def gen_text(self, rng):
+        if rng.random() < (0.6 if getattr(self, 'tiny_unit', False) else 0.12):  # whitespace only: the one kind of text that is valid inside a bare header ('try  :', 'else :')
+            return rng.choice([' ', '  ', '\t', '   ', ' \\\n', ' \\\n  '])
         n = rng.choice([0, 1, 1, 1, 2, 2, 3])
         parts = [rng.choice(SOUP) for _ in range(n)]
         return rng.choice(['', ' ']).join(parts)
